@@ -261,6 +261,10 @@ CLS_FDRIVER = """
       x = d%get_alt(); call mget_d("alt", d, x)
       g = d%get_value(); call mget_i("value", d, g)
       g = d%get_ro(); call mget_i("ro", d, g)
+      g = c%get_tint(); call mget_i("tint", c, g)
+      call mset_i("tint", c, 5_C_INT); call c%set_tint(5_C_INT)
+      g = c%get_tint(); call mget_i("tint", c, g)
+      g = d%get_tint(); call mget_i("tint", d, g)
     end block
   end block
 """
